@@ -331,3 +331,13 @@ package tchannel
 //@   label a-refused-frame-fails-its-item-here
 //@   ensures !sent && failureReason != _relayErrorNotFound ==> failedhere(r) == 1
 //@   property C09
+
+// (C06, call res layout "csumtype:1 (csum:4){0,1} arg1~2 arg2~2 arg3~2") the relay's
+// lazy call res parser decodes BOTH length prefixes in front of arg2 -- arg1's,
+// whose data it skips, and arg2's -- instead of assuming arg1 is empty.
+// (A positional contract as for newLazyCallReq is not written for this parser;
+// this is the thin version: calls(F) counts the calls made by the body.)
+//@ func newLazyCallRes(f *Frame) (cr lazyCallRes, err error)
+//@   label arg1-and-arg2-length-prefixes-are-both-decoded
+//@   ensures calls(ReadUint16) == 2
+//@   property C06
